@@ -119,56 +119,22 @@ class Impl:
         return bool(self.sm.equal(asg[0].rhs, asg[1].rhs))
 
 
-# ------------------------------------------------------------------------------------------ Coq terms (no list notations)
+# ------------------------------------------------------------------------------------------ Coq terms
+# (flat list notations parse much faster than nested constructor applications; names carry %nat)
 def cq_e(e, nm):
-    k = e[0]
-    if k == "lit":
-        return "(ELit (%d))" % e[1]
-    if k == "var":
-        return "(EVar %d)" % nm.get(e[1])
-    if k == "idx":
-        return "(EIdx %d %s)" % (nm.get(e[1]), cq_es(e[2], nm))
-    if k == "un":
-        return "(EUn %s %s)" % (e[1], cq_e(e[2], nm))
-    if k == "bin":
-        return "(EBin %s %s %s)" % (e[1], cq_e(e[2], nm), cq_e(e[3], nm))
-    return "(EIntr %s %s)" % (e[1], cq_es(e[2], nm))
-
-
-def cq_es(es, nm):
-    out = "En"
-    for e in reversed(es):
-        out = "(Ec %s %s)" % (cq_e(e, nm), out)
-    return out
+    return mf.expr_to_coq(e, nm)
 
 
 def cq_ss(ss, nm):
-    out = "Sn"
-    for s in reversed(ss):
-        out = "(Sc %s %s)" % (cq_s(s, nm), out)
-    return out
-
-
-def cq_s(s, nm):
-    k = s[0]
-    if k == "assign":
-        return "(SAssign %d %s %s)" % (nm.get(s[1]), cq_es(s[2], nm), cq_e(s[3], nm))
-    if k == "if":
-        return "(SIf %s %s %s)" % (cq_e(s[1], nm), cq_ss(s[2], nm), cq_ss(s[3], nm))
-    if k == "do":
-        return "(SDo %d %s %s %s %s)" % (nm.get(s[1]), cq_e(s[2], nm), cq_e(s[3], nm), cq_e(s[4], nm), cq_ss(s[5], nm))
-    if k in ("exit", "cycle", "return"):
-        return {"exit": "SExit", "cycle": "SCycle", "return": "SReturn"}[k]
-    if k == "print":
-        return "(SPrint %s)" % cq_es(s[1], nm)
-    return "(%s %d %s)" % ("SRegion" if k == "region" else "SDir", s[1], cq_ss(s[2], nm))
+    return mf.stmts_to_coq(ss, nm)
 
 
 def cq_path(t):
-    out = "Pn"
-    for i in reversed(t):
-        out = "(Pc %d %s)" % (i, out)
-    return out
+    return "[%s]" % "; ".join("%d%%nat" % i for i in t)
+
+
+def cq_n(i):
+    return "%d%%nat" % i
 
 
 # ------------------------------------------------------------------------------------------ targets and options
@@ -457,11 +423,12 @@ class Runner:
         nm, _, reqs, descr = self.coq_groups[key]
         if trans == "fuse":
             l1, l2 = M.get_stmt(p0, target[0]), M.get_stmt(p0, target[1])
-            tbl = "nil"
+            tbl = []
             if l1[0] == "do" and l2[0] == "do":
                 for k in (2, 3, 4):
                     if self.impl.sym_equal(l1[k], l2[k]):
-                        tbl = "(cons (%s, %s) %s)" % (cq_e(l1[k], nm), cq_e(l2[k], nm), tbl)
+                        tbl.append("(%s, %s)" % (cq_e(l1[k], nm), cq_e(l2[k], nm)))
+            tbl = "[%s]" % "; ".join(tbl)
             rev = target[0][-1] > target[1][-1]
             arrs = cq_path([nm.get(a) for a in sorted(GEN.ARRAYS)])
             req = "RFuse %s %s %s %s" % (tbl, arrs, "true" if rev else "false", cq_path(min(target)))
@@ -469,13 +436,13 @@ class Runner:
             req = "RSwap %s" % cq_path(target)
         elif trans == "chunk":
             out, el = aux_names
-            req = "RChunk (%d) %d %d %s" % (32 if opt is None else opt, nm.get(out), nm.get(el), cq_path(target))
+            req = "RChunk (%d) %s %s %s" % (32 if opt is None else opt, cq_n(nm.get(out)), cq_n(nm.get(el)), cq_path(target))
         elif trans == "tile":
-            req = "RTile (%d) %s %s" % (32 if opt is None else opt, " ".join("%d" % nm.get(x) for x in aux_names), cq_path(target))
+            req = "RTile (%d) %s %s" % (32 if opt is None else opt, " ".join(cq_n(nm.get(x)) for x in aux_names), cq_path(target))
         elif trans == "hoist":
             req = "RHoist %s" % cq_path(target)
         elif trans == "hoistbound":
-            req = "RHoistBound %s %s" % (" ".join("%d" % nm.get(aux_names.get(k, "loop_" + k)) for k in ("start", "stop", "step")), cq_path(target))
+            req = "RHoistBound %s %s" % (" ".join(cq_n(nm.get(aux_names.get(k, "loop_" + k))) for k in ("start", "stop", "step")), cq_path(target))
         elif trans == "induction":
             req = "RInduction %s" % cq_path(target)
         else:
@@ -535,7 +502,7 @@ def run(ctx):
     ctx.log("known-finding witnesses reproduced: %d of %d" % (nk, len(ctx.known_findings())))
     rng = ctx.rng("gen")
     g = GEN.G(rng)
-    nprog = ctx.pick(150, 2500)
+    nprog = ctx.pick(130, 2500)
     nstores = ctx.pick(8, 12)
     seen = set()
     for n in range(nprog):
@@ -558,21 +525,23 @@ def run(ctx):
         if n < 3:
             ctx.sample({"generator": kind, "fortran": text})
     header = ("From Coq Require Import ZArith. From PV Require Import Fort.Syntax C05.Model C05.Corr. "
-              "Open Scope nat_scope.")
-    groups = list(rn.coq_groups.values())
+              "Open Scope Z_scope.")
+    # the Coq model is evaluated on the known-finding witnesses and on a deterministic subset of the programs
+    # (every case is always compared implementation <-> mirror; coqc parsing of the case files dominates the cost)
+    allg = list(rn.coq_groups.values())
+    step, cap = ctx.pick(3, 1), ctx.pick(45, 450)
+    nk_groups = len(ctx.known_findings())
+    groups = allg[:nk_groups] + allg[nk_groups::step][:cap]
     terms = []
     for nm, p0, reqs, _ in groups:
-        lst = "nil"
-        for r in reversed(sorted(set(reqs), key=reqs.index)):
-            lst = "(cons %s %s)" % (r, lst)
-        terms.append("(%s, %s)" % (cq_ss(p0, nm), lst))
+        terms.append("(%s, [%s])" % (cq_ss(p0, nm), "; ".join(sorted(set(reqs), key=reqs.index))))
     ncoq = sum(len(set(g[2])) for g in groups)
-    bad = ctx.coq_eval_failing(header, "gcase", "gcheck", terms, shard=ctx.pick(6, 10)) if terms else []
+    bad = ctx.coq_eval_failing(header, "gcase", "gcheck", terms, shard=ctx.pick(8, 12)) if terms else []
     ctx.log("Coq model vs mirror: %d cases on %d programs, %d programs with a difference" % (ncoq, len(terms), len(bad)))
     ctx.notes["coq_model_cases"] = ncoq
     for i in bad[:2]:
         nm, p0, reqs, descr = groups[i]
-        single = ["(%s, %s)" % (cq_ss(p0, nm), "(cons %s nil)" % r) for r in reqs]
+        single = ["(%s, [%s])" % (cq_ss(p0, nm), r) for r in reqs]
         which = ctx.coq_eval_failing(header, "gcase", "gcheck", single, shard=40)
         ctx.violation({"property": "C05", "broken": "Coq model coq/C05/Model.v differs from the mirror props/C05/c05model.py "
                        "(which agrees with the implementation on these cases)", "cases": [descr[j] for j in which[:5]],
